@@ -176,3 +176,25 @@ type VerifCacheRef struct{ krc *keyRegionCache }
 func VerifNewScanner(c RPCClient, rpc *hrpc.Scan) hrpc.Scanner {
 	return newScanner(c, rpc, slog.Default())
 }
+
+// VerifSetSleepOverride installs (or, with nil, removes) sleepAndIncreaseBackoffOverride, the
+// package's own test seam for the retry back-off.
+func VerifSetSleepOverride(f func(ctx context.Context, backoff time.Duration) (time.Duration, error)) {
+	sleepAndIncreaseBackoffOverride = f
+}
+
+// VerifAvailability reports, for every region in the location cache, whether it is available.
+func (v *VerifClient) VerifAvailability() map[string]bool {
+	out := map[string]bool{}
+	for _, r := range v.CachedRegions() {
+		out[string(r.Name())] = !r.IsUnavailable()
+	}
+	return out
+}
+
+// ConnCacheSize returns the number of connection objects in the connection cache.
+func (v *VerifClient) ConnCacheSize() int {
+	v.C.clients.m.RLock()
+	defer v.C.clients.m.RUnlock()
+	return len(v.C.clients.regions)
+}
